@@ -111,3 +111,13 @@ add("C06", "c06", q, t)
 q, t = rapid_jobs(qshards=4, tshards=16, tscale=6)
 add("C18", "c18", q, t)
 ASSUMPTIONS["C18"] = ["the code under test iterates Go maps, whose order the harness cannot control: every case is executed 5 times in the same process; a failure that depends on one particular iteration order may need several replays to reappear"]
+
+# ---- C11 SyncList (controlled schedules + race detector) ------------------------------------------
+add("C11", "c11",
+    {"jobs": [dict(name="sched", mode="sched", run="^TestProps$", shards=4, scale=1, timeout=600),
+              dict(name="exh", mode="sched", run="^TestExhaustive$", shards=1, timeout=600),
+              dict(name="race", mode="race", run="^TestRaced$", shards=2, scale=1, timeout=600)]},
+    {"jobs": [dict(name="sched", mode="sched", run="^TestProps$", shards=12, scale=15, timeout=3000),
+              dict(name="exh", mode="sched", run="^TestExhaustive$", shards=1, timeout=3000),
+              dict(name="race", mode="race", run="^TestRaced$", shards=4, scale=10, timeout=3000)]},
+    replay_modes=["sched", "race"])
